@@ -135,7 +135,7 @@ pub fn assert_deferred(s: &Step, instr: Instruction, left: (GarnishDataType, usi
     pa!("C08", c.right.0 == right.0 && c.right.1 == right.1);
     let t = top(d);
     if c.accepted {
-        pa!("C08", t == s.cells_before);
+        pa!("C08", t >= s.cells_before);
         pa!("C08", d.cells[t].tag == GarnishDataType::Number);
         pa!("C08", num_eq(d.cells[t].num, SimpleNumber::Integer(d.host_vals[0])));
     } else {
